@@ -23,6 +23,7 @@ RULE = ("random permission tables (1..6 entries over 9 paths incl. nested, dupli
         "(table, verb, target, alias, outcome); non-trivial = the table has an entry below the root.")
 ASSUMPTIONS = ["ties between entries with the same path but different flags accept either entry", "MemoryPathIO back end"]
 REQUIRED_MONITORS = ["function_level", "wire_denied", "wire_allowed"]
+ANCHOR_FUNCTIONS = ['server.py:User.get_permissions', 'server.py:PathPermissions.__call__.<locals>.wrapper', 'server.py:Permission.is_parent']
 EXHAUSTIVE = {"quick": False, "thorough": False}
 
 PERM_PATHS = ["/", "/pub", "/pub/in", "/pub/in/deep", "/priv", "/priv/x", "/ghost", "/pub/in/f.txt", "/pub/other"]
